@@ -122,7 +122,7 @@ pub fn spec_for(prop: &str) -> Option<CheckSpec> {
             prop: "C14",
             level: "exploration",
             parts: vec![Part { scen: &DE, quick: 4_000_000, thorough: 150_000_000 }],
-            rule: "one case = (target type of a 23-type family, UTF-8 document: serializer output of a generated value / 1-3 token-level mutations / token soup / truncation, source kind SimBufRead or std BufReader(cap), cut set); from_str and from_reader must both fail or both succeed with equal values; distinct = Plan hash; non-trivial = at least one piece boundary strictly inside markup, or from_str fails (then from_reader must fail too); evidence also reports how many cases had a boundary inside markup AND a successful from_str",
+            rule: "one case = (target type of a 28-type family, UTF-8 document: serializer output of a generated value / 1-3 token-level mutations / token soup / truncation, source kind SimBufRead or std BufReader(cap), cut set); from_str and from_reader must both fail or both succeed with equal values; distinct = Plan hash; non-trivial = at least one piece boundary strictly inside markup, or from_str fails (then from_reader must fail too); evidence also reports how many cases had a boundary inside markup AND a successful from_str",
             assumptions: vec![
                 "only the chunking is varied (no interrupts, no I/O errors): exactly what C14 states",
                 "values are compared with PartialEq; error values are not compared",
@@ -138,7 +138,7 @@ pub fn spec_for(prop: &str) -> Option<CheckSpec> {
             rule: "same cases as C14 (both entry points are executed for every case); a panic from library code or an exceeded source-call budget / wall-clock watchdog is a violation; distinct = Plan hash; non-trivial = the document is not accepted by from_str (mutated / wrong shape / truncated) or is cut inside markup",
             assumptions: vec![
                 "panic attribution: a panic whose location is outside /verif/sim is charged to the library",
-                "bounded time = source calls <= 4*(12*len+128) and a 120 s wall-clock watchdog per case",
+                "bounded time = source calls <= 4*(12*len+128), sequence elements produced <= 4*len+64 (counted by a wrapper type around every sequence element of the family), and a 20 s wall-clock watchdog per case",
                 "inputs are sampled, not enumerated",
             ],
             real: vec!["quick_xml::de::{from_str, from_reader}", "std::io::BufReader", "serde derive-generated visitors of the type family"],
